@@ -2,4 +2,6 @@ SPECIFICATION Spec
 CONSTANT Deviant = FALSE
 PROPERTY NoMutation
 INVARIANT WellFormedAlways
+INVARIANT AllEnabled
+POSTCONDITION EmitBehaviours
 CHECK_DEADLOCK FALSE
